@@ -174,6 +174,18 @@ def handle : Handler := fun op args =>
   | "c04.alias" => withArgs (do let k ← tok; let a ← pMat; let v ← pRats; pure (k, a, v)) args fun (k, a, v) =>
       if k = "pa" ∨ k = "ma" ∨ k = "ss" then ansM (aliasM k a)
       else if k = "vs" ∨ k = "vv" then ansV (aliasV k v a) else "bad-args"
+  -- moves: swap / move-construct / push_back of temporaries / return of a by-value parameter / block list
+  | "c04.moves" => withArgs (do let k ← tok; let a ← pMat; let b ← pMat; pure (k, a, b)) args fun (k, a, b) =>
+      match mMoves k a b with
+      | .ok l => "ok " ++ " ".intercalate (l.map showMat)
+      | .error .diag => "err"
+      | .error .undef => "bad-args"
+  | "c04.vmoves" => withArgs (do let k ← tok; let u ← pRats; let v ← pRats; pure (k, u, v)) args fun (k, u, v) =>
+      match vMoves k u v with
+      | .ok l => "ok " ++ " ".intercalate (l.map showVec)
+      | .error .diag => "err"
+      | .error .undef => "bad-args"
+  | "c04.fenv" => withArgs (do let _k ← tok; let _u ← pRats; pure ()) args fun _ => "ok 1"   -- the rounding mode is left as it was found
   | "c04.laws" => withArgs (do let a ← pMat; let b ← pMat; pure (a, b)) args fun (a, b) =>
       match mul a b, mul (transpose b) (transpose a), mul a (identity a.cols), mul (identity a.rows) a with
       | .ok ab, .ok btat, .ok ai, .ok ia =>
